@@ -211,6 +211,24 @@ static bool sameGM(const GaussianMixture& a, const GaussianMixture& b) {
 }
 static bool samePS(const ParticleSet& a, const ParticleSet& b) { return sameGM(a, b) && vh::same_bits(a.state(), b.state()); }
 
+// pre=<mode>: instead of poison the output container holds a partial copy of the predicted belief (a filter re-uses its
+// buffers): 0 same mean, 1 same covariances, 2 all but the weights, 3 all but one covariance entry,
+// 4 (particle sets) same positions and weights, 5 all but one position entry.  Twins get the same content.
+static int g_pre = -1;
+static void prefillGM(GaussianMixture& out, const GaussianMixture& in, int mode) {
+    out = in;
+    if (mode == 0) { out.covariance().setConstant(-54321.0); out.weight().setConstant(777.0); }
+    else if (mode == 1) { out.mean().setConstant(12345.0); out.weight().setConstant(777.0); }
+    else if (mode == 2) { out.weight().setConstant(777.0); }
+    else { out.covariance()(out.covariance().rows() - 1, out.covariance().cols() - 1) += 0.5; }
+}
+static void prefillPS(ParticleSet& out, const ParticleSet& in, int mode) {
+    out = in;
+    if (mode <= 3) { prefillGM(out, in, mode); if (mode == 1) out.state().setConstant(999.0); }
+    else if (mode == 4) { out.mean().setConstant(12345.0); out.covariance().setConstant(-54321.0); }
+    else { out.state()(out.state().rows() - 1, out.state().cols() - 1) += 0.5; }
+}
+
 static std::string pick(const std::vector<std::pair<std::string, bool>>& hits) {
     std::string lab; int n = 0;
     for (auto& h : hits) if (h.second) { if (n == 0) lab = h.first; ++n; }
@@ -270,6 +288,7 @@ static std::string gauss_case(const std::string& cls, uint64_t seed, const Data1
         GaussianMixture pred(k, n), in(k, n), out(k, n), ref(k, n);
         fillGM(pred, r); in = pred;
         poisonGM(out); poisonGM(ref);
+        if (g_pre >= 0 && !alias) { prefillGM(out, in, g_pre > 3 ? g_pre - 4 : g_pre); prefillGM(ref, in, g_pre > 3 ? g_pre - 4 : g_pre); }
         bool sizefail = (cls == "sukf" && d.m % sub != 0);
         bool full = false;
         std::string log;
@@ -348,6 +367,7 @@ static std::string part_case(const std::string& cls, uint64_t seed, const Data12
         ParticleSet pred(k, n), in(k, n), out(k, n), ref(k, n), refp(k, n);
         fillPS(pred, r); in = pred;
         poisonPS(out); poisonPS(ref); poisonPS(refp);
+        if (g_pre >= 0 && !alias) { prefillPS(out, in, g_pre); prefillPS(ref, in, g_pre); prefillPS(refp, in, g_pre); }
         if (alias) {
             // in-place call: the same object is the predicted and the corrected particle set
             c->correct(pred, pred);
@@ -429,12 +449,13 @@ static std::string fault_case(Toks& t) {
     std::string cls = t.tok(); uint64_t seed = (uint64_t)t.nat(); long n = t.nat(), m = t.nat(), k = t.nat(), sub = t.nat();
     if (n < 1 || n > 6 || m < 1 || m > 6 || k < 1 || k > 8 || sub < 1 || sub > 8) throw vh::BadArgs("size");
     std::shared_ptr<Script> s(new Script()); parse_scripts(t, *s);
-    long reps = 1; bool alias = false; g_deco = g_move = g_massign = g_degen = false;
+    long reps = 1; bool alias = false; g_deco = g_move = g_massign = g_degen = false; g_pre = -1;
     while (!t.empty()) {
         std::string rt = t.tok();
         if (rt == "alias=1") alias = true;
         else if (rt == "deco=1") g_deco = true;
         else if (rt == "degen=1") g_degen = true;
+        else if (rt.compare(0, 4, "pre=") == 0 && rt.size() == 5 && rt[4] >= '0' && rt[4] <= '5') g_pre = rt[4] - '0';
         else if (rt == "move=1") g_move = true;
         else if (rt == "massign=1") g_massign = true;
         else if (rt == "alias=0") alias = false;
